@@ -242,7 +242,7 @@ class ToolScen(Scen):
 
 def run_plans(arg):
     sc, plans = arg
-    cs = core.drv(sc.cmd, sc.job(plans), timeout=3000)
+    cs = core.drv(sc.cmd, sc.job(plans), timeout=3000, env_extra={"VF_BLOB_MAX": "100000000"} if getattr(sc, "big", False) else None)
     out = []
     for c, p in zip(cs, plans):
         rec = sc.observe(c)
@@ -325,6 +325,29 @@ def scenarios(ctx):
     paab = zckref.parse(faab)
     S += [FaultScen("copy-chunks", "copy", fn, "tmark=+000", src=fab, pb=pn)]
     S += [UpdateScen("update-ab-abc", fab, fn, -1), UpdateScen("update-none-aab-limit1", None, faab, 1)]
+    # files with the uncompressed-source flag carry no whole-data digest: a reader that loses bytes to a short read has no second
+    # line of defence there
+    nU, zU = Cfg(0, b"", 1, 3, 1), Cfg(2, b"", 1, 1, 1)
+    fnu, fzu = universe.lib_files([("abc", nU), ("abc", zU)], ctx.seed)
+    S += [FaultScen("lib-read-none-uflag", "read", fnu, "sched=7", expect=content), FaultScen("lib-read-zstd-uflag", "read", fzu, "sched=32768", expect=content),
+          FaultScen("validate-intact-uflag", "validate", fzu, "ops=V,F", valid=True, pb=zckref.parse(fzu))]
+    # scale x environment: chunks that take two and three passes through the 32 KiB buffers, so that a fault can fall between
+    # the passes of one chunk (reader, scan, chunk request, copy, the writer's final copy of its temporary file)
+    bigcfg = Cfg(0, b"", 0, 3, 1)
+    bigf, bpcs = universe.big_file(bigcfg, ctx.seed, sizes=(40000, 70000, 100))
+    bcontent = b"".join(bpcs)
+    pbig = zckref.parse(bigf)
+    bigz, zpcs = universe.big_file(Cfg(2, b"", 0, 1, 1), ctx.seed, sizes=(70000, 100))
+    bx = bytearray(bigf); bx[zckref.extents(pbig)[2][0] + 33000] ^= 1
+    Sb = [FaultScen("lib-read-big", "read", bigf, "sched=100000", expect=bcontent), FaultScen("lib-read-big-zstd", "read", bigz, "sched=32768", expect=b"".join(zpcs)),
+          FaultScen("validate-big-damaged", "validate", bytes(bx), "ops=V,F", valid=False, pb=pbig),
+          FaultScen("chunk-requests-big", "chunkreq", bigf, "ops=C2,S1", expect={"dict": b"", "content": bcontent}, pb=pbig),
+          FaultScen("copy-chunks-big", "copy", bigf, "tmark=+00+", src=bigf, pb=pbig),
+          WriteScen("lib-write-big-chunks", bigcfg, bcontent[:110000], "w40000,e,w70000,e"),
+          UpdateScen("update-big", None, bigf, -1)]
+    for x in Sb:
+        x.big = True
+    S += Sb
     # three read blocks; a split string starts exactly at the second block so that a short first read (n-1) moves it to block offset 1
     big = (b"0123456789abcdef" * 2048)[:32768] + b"<text:p>" + (b"0123456789abcdef" * 437 + b"<text:p>") * 5 + b"0123456789abcdef<text:p>" * 3
     S += [ToolScen("zck-70k", "zck", ["in.bin"], [("in.bin", big)], "in.bin:i,in.bin.zck:o", ["in.bin.zck"], decodes_to=big),
